@@ -10,7 +10,7 @@ from harness.programs import run_program
 PID = 'C14'
 LEVEL = 'exploration'
 RULE = ('Requester: a real client with honor_lease=True and request_queue_size in {0 (unbounded), 1, 3} against a raw '
-        'granter; Hypothesis generates timelines of events at virtual times: LEASE(n in {0,1,2,5,100}, ttl 1 ms..10 s for the requester; 1 ms..2^31-1 ms incl. whole days for the granter), '
+        'granter; Hypothesis generates timelines of events at virtual times: LEASE(n in {0,1,2,5,100}, ttl 0 ms..10 s for the requester; 0 ms..2^31-1 ms incl. whole days for the granter), '
         'requests of the four request types (some fragmented), time advances (never within 0.5 ms of an expiry instant). '
         'Oracle = reference lease model replayed over the requester\'s own event log: no request frame before the first '
         'LEASE was yielded; under each lease at most its count of request frames, all before arrival + ttl; a new LEASE '
@@ -34,7 +34,7 @@ def timelines(draw):
     frag = draw(st.sampled_from([None, None, 64]))
     queue = draw(st.sampled_from([0, 0, 1, 3]))
     ev = st.one_of(
-        st.tuples(st.just('lease'), st.sampled_from([0, 1, 1, 2, 2, 5, 100]), st.sampled_from([1, 5, 50, 100, 1000, 10000])),
+        st.tuples(st.just('lease'), st.sampled_from([0, 1, 1, 2, 2, 5, 100]), st.sampled_from([0, 1, 5, 50, 100, 1000, 10000])),
         st.tuples(st.just('req'), st.sampled_from(KINDS)),
         st.tuples(st.just('req'), st.sampled_from(KINDS)),
         st.tuples(st.just('adv'), st.sampled_from([1, 2, 4, 9, 30, 49, 51, 99, 101, 500, 999, 1001, 5000, 9999, 10001])),
@@ -66,7 +66,7 @@ def model(tl):
             lease = [n, t + ttl, 0, info['leases']]
             info['leases'] += 1
             events.append(e)
-            while queue and lease[2] < lease[0]:
+            while queue and lease[2] < lease[0] and ttl > 0:  # (a lease of zero milliseconds has expired on arrival)
                 released.append((queue.pop(0), lease[3], t))
                 lease[2] += 1
         else:
@@ -183,7 +183,7 @@ def judge_requester(tl):
 @st.composite
 def granter_cases(draw):
     leases = draw(st.lists(st.tuples(st.sampled_from([0, 1, 2, 5, 100, 0x7FFFFFFF]),
-                                     st.one_of(st.sampled_from([1, 500, 1500, 2500, 10000, 999, 1001]),
+                                     st.one_of(st.sampled_from([0, 1, 500, 1500, 2500, 10000, 999, 1001]),
                                                st.integers(1, 100000),
                                                # hours, days, and the 31-bit maximum the default publishers use
                                                st.sampled_from([3600000, 86399999, 86400000, 86400001, 172803250, 0x7FFFFFFF]),
